@@ -6,7 +6,7 @@
    fact used about it is the recorded hypothesis 0 <= disc v m <= v (checked on every real call
    by the harness, and proved for the ideal rational formula, [cubic_discount_within_value]). *)
 From Coq Require Import List ZArith NArith Bool Permutation.
-From GQ Require Import Generated.C20Params Model.C20 Proofs.C20 Proofs.C20_Last.
+From GQ Require Import Generated.C20Params Model.C20 Proofs.C20 Proofs.C20_Last Proofs.C20_Origin Proofs.C20_Redeem.
 Import ListNotations.
 Local Open Scope Z_scope.
 
@@ -274,3 +274,107 @@ Example refund_nonvacuous :
   refund_qi 123456789 1000000 = (123456000, 15, 865000, true) /\ dust 123456789 = 789
   /\ refund_qi 123456789 27000 = (120000000, 3, 0, false) /\ smallest_refundable = 1000.
 Proof. vm_compute. repeat split; reflexivity. Qed.
+
+(* ================= origin side: debited exactly once per emitted ETX =================
+   (added after the blind changes: core/vm frames, evm.ETXCache and the Quai debit) *)
+
+(* generated inventory of core/vm/evm.go: Call, CallCode, DelegateCall, StaticCall and create each
+   take evm.snapshot() once and roll back only through evm.revertToSnapshot(); no method of *EVM
+   touches the StateDB revision alone; snapshot()/revertToSnapshot() cover len(ETXCache) *)
+Theorem evm_frames_take_the_full_snapshot : evm_sites_ok = true.
+Proof. exact evm_sites_ok_true. Qed.
+Print Assumptions evm_frames_take_the_full_snapshot.
+
+(* for every nesting of frames of every call kind, every mix of failures, value transfers and
+   emissions: what left the Quai accounts of the zone is exactly the value + fee of the ETXs left
+   in the cache (so a conversion that reaches Prime has been paid for once, and nothing is paid
+   for a conversion that does not) *)
+Theorem origin_debited_exactly_the_emitted_etxs : forall ptn b tr,
+  let s := orun true ptn b tr in
+  bal_total b - bal_total (o_bal s) = cache_cost (o_cache s).
+Proof. exact origin_debit_is_cache_cost. Qed.
+Print Assumptions origin_debited_exactly_the_emitted_etxs.
+
+Theorem origin_emission_at_most_once_in_cache : forall sc ptn b tr,
+  NoDup (emit_ids tr) -> NoDup (cache_ids (orun sc ptn b tr)).
+Proof. exact origin_emitted_at_most_once. Qed.
+Print Assumptions origin_emission_at_most_once_in_cache.
+
+(* the statement is false as soon as a failed frame only rolls the account state back: a
+   conversion emitted under a reverted DELEGATECALL is then left in the cache unpaid *)
+Theorem origin_state_only_snapshot_refuted :
+  let s := orun false witness_ptn witness_bals witness_trace in
+  bal_total witness_bals - bal_total (o_bal s) < cache_cost (o_cache s)
+  /\ map x_id (o_cache s) = [7%N; 8%N].
+Proof. exact state_only_snapshot_refuted. Qed.
+Print Assumptions origin_state_only_snapshot_refuted.
+
+Example origin_nonvacuous :
+  let s := orun true witness_ptn witness_bals witness_trace in
+  map x_id (o_cache s) = [8%N] /\ cache_cost (o_cache s) = 2 * min_quai_conversion_amount + 63000
+  /\ o_stack s = [] /\ o_skip s = 0%nat.
+Proof. exact full_snapshot_witness. Qed.
+
+(* ================= Qi->Quai: the locked credit is redeemed exactly once ================= *)
+
+(* generated: ConversionLockPeriod is one of the four depths RedeemLockedQuai scans, exactly once,
+   all depths are positive *)
+Theorem redeem_depths_ok : depths_ok = true.
+Proof. exact depths_ok_true. Qed.
+Print Assumptions redeem_depths_ok.
+
+Theorem redeem_is_the_reviewed_one :
+  redeem_shape_sha256 = RedeemDigest.reviewed_redeem_shape_sha256 /\ redeem_shape_len = 53.
+Proof. exact redeem_shape_reviewed. Qed.
+Print Assumptions redeem_is_the_reviewed_one.
+
+(* whatever the step pays at height h is a conversion to the Quai ledger included at exactly
+   h - ConversionLockPeriod *)
+Theorem converted_quai_paid_only_at_lock_expiry : forall c h e,
+  In e (eligible lockup_depths c h) ->
+  conversion_lock_period < h /\ In e (block_at c (h - conversion_lock_period)) /\ q_conv e = true.
+Proof. intros c h e. exact (eligible_timing lockup_depths c h e lockup_depths_period_once). Qed.
+Print Assumptions converted_quai_paid_only_at_lock_expiry.
+
+(* over the whole life of a chain (heights 1..H) the step pays the conversions of the blocks
+   1..H-ConversionLockPeriod, each block once, in order, and nothing else: no second credit when
+   the chain reaches inclusion + 3, 6 or 12 months *)
+Theorem converted_quai_paid_exactly_once_over_the_chain : forall c (H : nat),
+  concat (map (eligible lockup_depths c) (heights H)) =
+  concat (map (convs c) (heights (H - Z.to_nat conversion_lock_period))).
+Proof.
+  intros c H. exact (scan_pays_each_block_once lockup_depths c H lockup_depths_period_once lock_period_pos).
+Qed.
+Print Assumptions converted_quai_paid_exactly_once_over_the_chain.
+
+(* amounts: one run credits at most the value carried by the conversions expiring there (the
+   account creation fee, or the whole credit when it is smaller than the fee, is withheld from a
+   new account) ... *)
+Theorem converted_quai_credit_le_value : forall fee c ex h, 0 <= fee ->
+  (forall e, In e (convs c (h - conversion_lock_period)) -> 0 <= q_value e) ->
+  credit_sum (snd (redeem_at lockup_depths fee c ex h)) <=
+  (if h <=? conversion_lock_period then 0 else value_sum (convs c (h - conversion_lock_period))).
+Proof. intros fee c ex h. exact (redeem_at_le lockup_depths fee c ex h lockup_depths_period_once). Qed.
+Print Assumptions converted_quai_credit_le_value.
+
+(* ... and exactly the repriced value, per ETX, for recipients that exist *)
+Theorem converted_quai_credit_exact_for_existing_recipient : forall fee c ex h,
+  (forall e, In e (convs c (h - conversion_lock_period)) -> n_mem (q_to e) ex = true) ->
+  redeem_at lockup_depths fee c ex h =
+  (ex, if h <=? conversion_lock_period then []
+       else map (fun e => (q_id e, q_to e, q_value e)) (convs c (h - conversion_lock_period))).
+Proof. intros fee c ex h. exact (redeem_at_exact lockup_depths fee c ex h lockup_depths_period_once). Qed.
+Print Assumptions converted_quai_credit_exact_for_existing_recipient.
+
+(* a guard "at least the lock period" instead of "equal" pays the same ETX at all four depths *)
+Theorem redeem_at_least_guard_refuted :
+  map (fun d => length (eligible_ge lockup_depths witness_chain (10 + d))) lockup_depths = [1; 1; 1; 1]%nat
+  /\ map (fun d => length (eligible lockup_depths witness_chain (10 + d))) lockup_depths = [1; 0; 0; 0]%nat.
+Proof. exact at_least_guard_pays_at_every_depth. Qed.
+Print Assumptions redeem_at_least_guard_refuted.
+
+Example redeem_nonvacuous :
+  redeem_scan lockup_depths 420000000000000 nonvac_chain [1%N]
+    [241929; 241930; 241931; 1555210; 3110410; 6307210]
+  = [[]; [(1%N, 1%N, 123000000000000000000)]; [(4%N, 1%N, 7)]; []; []; []].
+Proof. exact redeem_nonvacuous_l. Qed.
